@@ -278,6 +278,17 @@ def rule_R1_R3(text, fired):
                     out.append('if !(' + text_of(args[0]).strip() + ') { return Err((' + text_of(args[1]).strip() + ').into()); }')
                     k = kc + 1
                     continue
+        if t.kind == 'id' and t.text == 'format' and k + 1 < n:
+            kn = next_code(toks, k)
+            if kn < n and toks[kn].kind == 'p' and toks[kn].text == '!':
+                ko = next_code(toks, kn)
+                if ko < n and toks[ko].kind == 'p' and toks[ko].text in '([{':
+                    # R3c: format!(..) => vfmt()   (the text of a message: an opaque String; its arguments are dropped -- they are evaluated for display only)
+                    kc = match_close(toks, ko)
+                    fired.add('R3c')
+                    out.append('vfmt()')
+                    k = kc + 1
+                    continue
         if t.kind == 'id' and k + 1 < n:
             kn = next_code(toks, k)
             if kn < n and toks[kn].kind == 'p' and toks[kn].text == '!' and t.text in (PANIC_MACROS | ASSERT_MACROS | ASSERT_EQ_MACROS | ASSERT_NE_MACROS):
